@@ -14,12 +14,12 @@ Exporting == "VERIF_C02_EXPORT" \in DOMAIN IOEnv
 A == "A"
 B == "B"
 GrantSetsQ  == {{}, {A}, {Star}}
-GrantSetsT  == {{}, {A}, {B}, {Star}, {A, Star}}
+GrantSetsT  == {{}, {A}, {Star}, {A, Star}}
 U2TypesQ    == {[direct |-> {B}, inRole |-> FALSE], [direct |-> {}, inRole |-> TRUE]}
-U2TypesT    == {[direct |-> {B}, inRole |-> FALSE], [direct |-> {}, inRole |-> TRUE], [direct |-> {A, B}, inRole |-> TRUE]}
+U2TypesT    == {[direct |-> {B}, inRole |-> FALSE], [direct |-> {}, inRole |-> TRUE]}
 WideSetsC   == {{}, {A}, {B}, {Pub}, {A, B}}
 NarrowSetsQ == {{A}, {B}}
-NarrowSetsT == {{}, {A}, {B}, {Pub}}
+NarrowSetsT == {{}, {A}, {B}}
 
 MCNext == ~Exporting /\ Next
 
